@@ -31,6 +31,7 @@ func init() {
 }
 
 func rulesC12(c *Ctx) {
+	ruleParserEntry(c, "C12.ENTRY")
 	// an atom after a sub-query atom is resolved in the enclosing scope again (else the filter is refused)
 	ruleScopePush(c, "C12.SCOPE", "ast")
 	ruleListenerNoEval(c, "C12.NOEVAL")
